@@ -336,34 +336,76 @@ def find_all(pat, root, mode='expr', nested=True):
     """All (node, bindings) in root matching pattern.  If the literal
     pattern matches nothing, it is retried with every name that is a *local
     variable* of the enclosing function turned into a (consistent)
-    metavariable, so that renaming a local does not change the verdict."""
-    out = _find_all(_parse_pat(pat, mode), root, mode, nested)
-    if out:
-        return out
+    metavariable, so that renaming a local does not change the verdict.
+
+    The renaming is one map per function: a literal match records the
+    identity for the locals it mentions, a generalised match records what
+    each pattern local was bound to, and later patterns in the same function
+    must agree with the record (and two pattern locals never share one
+    actual name).  Otherwise two statements that are linked only through a
+    local's name could each match with a different reading of that name."""
     pl = _parse_pat(pat, mode)
-    pat_names = {n.id for n in ast.walk(pl) if isinstance(n, ast.Name)}
-    # names of the pattern that are not bound in the code any more are
-    # candidates for having been renamed; names still bound are generalised
-    # too (the statement may have been re-expressed with another local)
-    cand = {n for n in pat_names if not n.startswith('Q')
-            and n not in _KEEP_NAMES}
-    loc = _locals_of(root)
-    fnparams = set()
     fn = root
     while fn is not None and not isinstance(fn, (ast.FunctionDef,
                                                  ast.AsyncFunctionDef)):
         fn = parent(fn)
+    loc = _locals_of(root)
+    pat_names = {n.id for n in ast.walk(pl) if isinstance(n, ast.Name)}
+    fnparams = set()
     if fn is not None:
         a = fn.args
         fnparams = {x.arg for x in a.posonlyargs + a.args + a.kwonlyargs}
-    gen = {n for n in cand if n not in fnparams and
-           (n in loc or n not in _names_used(fn))}
+    cand = {n for n in pat_names if not n.startswith('Q')
+            and n not in _KEEP_NAMES and n not in fnparams}
+    memo = _renames.setdefault(id(fn), {}) if fn is not None else {}
+    out = _find_all(pl, root, mode, nested)
+    if out:
+        ident = {n for n in cand if n in loc}
+        if any(memo.get(n, n) != n for n in ident) or any(
+                v in ident and k != v for k, v in memo.items()):
+            return []           # contradicts an earlier reading of a local
+        for n in ident:
+            memo[n] = n
+        return out
+    gen = {n for n in cand if n in loc or n not in _names_used(fn)}
     if not gen:
         return out
-    import copy as _copy
     pg = _Generalise(gen).visit(ast.parse(pat, mode='eval').body
                                 if mode == 'expr' else ast.parse(pat).body[0])
-    return _find_all(pg, root, mode, nested)
+    res = []
+    for node, bnd in _find_all(pg, root, mode, nested):
+        ok = True
+        ren = {}
+        for k, v in list(bnd.items()):
+            if not k.startswith('Q_L_'):
+                continue
+            actual = v.id if isinstance(v, ast.Name) else None
+            if actual is None:
+                ok = False
+                break
+            ren[k[4:]] = actual
+        if not ok:
+            continue
+        for k, v in ren.items():
+            if memo.get(k, v) != v:
+                ok = False
+            if any(k2 != k and v2 == v for k2, v2 in memo.items()):
+                ok = False
+        if len(set(ren.values())) != len(ren):
+            ok = False
+        if ok:
+            res.append((node, {k: v for k, v in bnd.items()
+                               if not k.startswith('Q_L_')}, ren))
+    if res:
+        # record only a reading all matches agree on
+        for k in res[0][2]:
+            vals = {r[2][k] for r in res}
+            if len(vals) == 1:
+                memo[k] = vals.pop()
+    return [(n, bnd) for n, bnd, _ in res]
+
+
+_renames = {}
 
 
 _KEEP_NAMES = {'self', 'np', 'numpy', 'dassh', 'copy', 'os', 'sys', 'len',
